@@ -100,6 +100,7 @@ func runC03(p *core.Program, r *core.Report) {
 	r.Rule("C03.fields", "every field the writer emits is stored by the reader into the same field (no swap, no drop)", 60)
 	r.Rule("C03.countlink", "every reader loop is driven by the count the writer emitted for that repetition", 60)
 	r.Rule("C03.classified", "every lang/pack function touching a root stream is paired, reached from a pair, or listed with a reason", 8)
+	r.Rule("C03.fresh", "every pack the factory hands out is freshly allocated", 20)
 	r.Rule("C03.containers", "record containers stamp Pcode/Oid/Okind/Onode on every element they return", 2)
 	r.Rule("C03.zipstatus", "doZip marks the pack ZIPPED exactly when it compresses; doUnZip decompresses exactly when marked", 1)
 	r.Rule("C03.errcheck", "a value obtained together with an error is not consumed on the err != nil branch", 2)
@@ -135,6 +136,7 @@ func runC03(p *core.Program, r *core.Report) {
 	}
 
 	c03Containers(p, r)
+	checkFactoryFresh(p, r, "C03.fresh", "lang/pack", "CreatePack")
 	c03ZipStatus(p, r)
 	r.Rule("C03.zippure", "compressutil.DoZip/UnZip are stateless (no package-level variable): results never alias reused storage", 2)
 	c03ZipPure(p, r)
